@@ -295,10 +295,35 @@ pub fn strategy() -> BoxedStrategy<Case> {
         .boxed()
 }
 
+/// the whole decision table once: every configuration x request kind x target, one request per fresh server
+fn decision_table() -> Vec<Case> {
+    let mut out = vec![];
+    for bits in 0u8..32 {
+        let (read_only, overwrite, keep, single, distinct) = (bits & 1 != 0, bits & 2 != 0, bits & 4 != 0, bits & 8 != 0, bits & 16 != 0);
+        for write in [false, true] {
+            for target in 0u8..11 {
+                out.push(Case {
+                    read_only,
+                    overwrite,
+                    keep,
+                    single,
+                    distinct,
+                    // the request under test, then a read of a served file (the server still works and serves the right bytes)
+                    steps: vec![Step { write, target, opts: vec![], upload_len: 700, abort_after: None }, Step { write: false, target: 0, opts: vec![], upload_len: 0, abort_after: None }],
+                    seed: 6 + bits as u64 * 100 + target as u64,
+                });
+            }
+        }
+    }
+    out
+}
+
 pub fn run(ctx: &Ctx) {
-    ctx.set_rule("model-based: per case a fresh real tftpd with a generated configuration {read-only, overwrite, keep-on-error, single/multi port, shared/distinct directories} and a history of 1-11 requests, each RRQ or WRQ of a target in {existing short, existing long, missing, in subdirectory existing/missing, existing zero-length, leading-slash spelling} with one of 5 option sets; uploads of 0..3500 bytes are completed (10% are aborted by a client ERROR). A reference decision table predicts refusal (ERROR 2 read-only / ERROR 6 exists without overwrite / ERROR 1 not found - from the listening port, followed by nothing) or acceptance; a model filesystem is updated and compared with the real send and receive trees (every file, every byte) after every step, so a refused request that changes anything, an overwrite that leaves old bytes behind, or a wrong download is caught at the step where it happens. Non-trivial = the history contains a refusal and a completed transfer; distinct = distinct cases.");
+    ctx.set_rule("exhaustive: the whole decision table once (32 configurations x RRQ/WRQ x 11 targets, one request per fresh server); model-based random: per case a fresh real tftpd with a generated configuration {read-only, overwrite, keep-on-error, single/multi port, shared/distinct directories} and a history of 1-11 requests, each RRQ or WRQ of a target in {existing short, existing long, missing, in subdirectory existing/missing, existing zero-length, leading-slash spelling} with one of 5 option sets; uploads of 0..3500 bytes are completed (10% are aborted by a client ERROR). A reference decision table predicts refusal (ERROR 2 read-only / ERROR 6 exists without overwrite / ERROR 1 not found - from the listening port, followed by nothing) or acceptance; a model filesystem is updated and compared with the real send and receive trees (every file, every byte) after every step, so a refused request that changes anything, an overwrite that leaves old bytes behind, or a wrong download is caught at the step where it happens. Non-trivial = the history contains a refusal and a completed transfer; distinct = distinct cases.");
     let dirs = DirPool::new(ctx, "c06");
-    explore_n(ctx, "random", ctx.tier.pick(4_000, 120_000), shards(), 48, strategy, |c: &Case, o| dirs.with(|d| judge(d, c, o)));
+    let table = decision_table();
+    enumerate(ctx, "exh-decision-table", &table, true, |c, o| dirs.with(|d| judge(d, c, o)));
+    explore_n(ctx, "random", ctx.tier.pick(3_000, 120_000), shards(), 48, strategy, |c: &Case, o| dirs.with(|d| judge(d, c, o)));
 }
 
 pub fn replay(ctx: &Ctx, part: &str, case: &Value) -> bool {
